@@ -158,6 +158,15 @@ func genRestr(r *Rng, base string) []any {
 		if r.Chance(4) {
 			lo = pick(r, []string{"max", "1.5", "-1", "007", "min"})
 		}
+		// the keyword alone: the single value min (first part) or max (last part) of the base — or misplaced
+		if i == n-1 && r.Chance(12) {
+			lo, hi = "max", "max"
+		} else if i == 0 && r.Chance(8) {
+			lo, hi = "min", "min"
+		} else if r.Chance(2) {
+			lo = pick(r, []string{"max", "min"})
+			hi = lo
+		}
 		parts = append(parts, []any{lo, hi})
 	}
 	return parts
@@ -299,7 +308,7 @@ func typesModule(c Case) string {
 			var parts []string
 			for _, p := range rs {
 				pp := p.([]any)
-				if pp[0] == pp[1] && pp[0] != "min" && pp[0] != "max" {
+				if pp[0] == pp[1] {
 					parts = append(parts, pp[0].(string))
 				} else {
 					parts = append(parts, pp[0].(string)+".."+pp[1].(string))
